@@ -17,3 +17,21 @@ def pad_class(t, n):
     b = BS[t]; r = n % b; thr = b - LB[t] - 1
     where = "below" if r < thr else ("at" if r == thr else ("above" if r < b - 1 else "last"))
     return "r%d-%s" % (r, where) if r in (0, thr - 1, thr, thr + 1, b - 9, b - 8, b - 1) else where
+
+
+def oom_extra(ctx, lines, what):
+    """Run allocation-failure sweeps (harness/drv_heap.cpp `oom` op) as an extra observation of a functional property: a call that follows a
+    failed one - or one made with other arguments - must still return the documented value. Compared with the model's verdict line."""
+    import core, os
+    exe, log = core.ensure_driver("drv_heap", ("-w",))
+    if exe is None:
+        return [("build", "drv_heap does not build: " + log[-400:], None)]
+    impl = core.run_lines(exe, lines, ctx["rundir"], "oomx", shards=min(len(lines), core.NCPU))
+    model = core.run_lines(ctx["model_exe"], lines, ctx["rundir"], "oomm", shards=1)
+    out = []
+    for l, i, m in zip(lines, impl, model):
+        if i != m:
+            out.append(("oom", "%s: after an injected allocation failure (or a call with other arguments) the next call does not give the documented result: %s" % (what, i[:300]),
+                        dict(key="oom " + " ".join(l.split()[:3]), cases=[dict(case=l)], implementation=i, model=m)))
+    ctx["extra_cov"]["allocation_failure_sweeps"] = len(lines)
+    return out
